@@ -614,7 +614,9 @@ class PseudoNetCDFFile(PseudoNetCDFSelfReg, object):
         ddimevals = np.diff(dimevals)
 
         if (ddimevals < 0).all():
-            dimevals[::-1]
+            # numpy.interp needs ascending x-coordinates
+            dimevals = dimevals[::-1]
+            dimvals = dimvals[::-1]
             idx = idx[::-1]
         elif (ddimevals > 0).all():
             pass
